@@ -82,7 +82,7 @@ def gen_spacetime(rnd):
         if b is None:
             return None
     elif cls == "affine":
-        b, ext, info = GA.gen_affine(rnd, rnd.choice(["S1", "S2", "S3"]))
+        b, ext, info = GA.gen_affine(rnd, rnd.choice(["S1", "S2", "S3", "S6"]))
         b.tags.append("st-affine")
         b._extents = ext
     else:
